@@ -102,6 +102,24 @@ func consumePrefix(s, prefix string) (string, bool) {
 	return s, false
 }
 
+// lowerASCII maps the ASCII letters of s to lower case and leaves every
+// other byte alone. Unlike strings.ToLower it never maps a non-ASCII letter
+// onto an ASCII one (U+0130 lower-cases to 'i', U+212A to 'k').
+func lowerASCII(s string) string {
+	for i := 0; i < len(s); i++ {
+		if c := s[i]; 'A' <= c && c <= 'Z' {
+			b := []byte(s)
+			for j := i; j < len(b); j++ {
+				if c := b[j]; 'A' <= c && c <= 'Z' {
+					b[j] = c + ('a' - 'A')
+				}
+			}
+			return string(b)
+		}
+	}
+	return s
+}
+
 // isDigits reports whether s is a non-empty sequence of ASCII digits.
 func isDigits(s string) bool {
 	if s == "" {
@@ -121,7 +139,7 @@ func (d *Decimal) setString(c *Context, s string) (Condition, error) {
 	if !d.Negative {
 		s, _ = consumePrefix(s, "+")
 	}
-	s = strings.ToLower(s)
+	s = lowerASCII(s)
 	d.Exponent = 0
 	d.Coeff.SetInt64(0)
 	// Until there are no parse errors, leave as NaN.
